@@ -212,12 +212,9 @@ func (e *Engine) findDFA(haystack []byte) *Match {
 	// This is O(m) where m = match length, not O(n)
 	// For patterns without prefilter, estimate start position
 	// and search from there
-	estimatedStart := 0
-	if endPos > 100 {
-		// For long haystacks, start search closer to the match end
-		estimatedStart = endPos - 100
-	}
-	start, end, matched := e.pikevm.SearchAt(haystack, estimatedStart)
+	// (a match may be longer than any fixed window before endPos, so the
+	// search for the leftmost-first span starts at the beginning)
+	start, end, matched := e.pikevm.SearchAt(haystack, 0)
 	if !matched {
 		return nil
 	}
@@ -274,11 +271,8 @@ func (e *Engine) findAdaptive(haystack []byte) *Match {
 			e.putSearchState(state)
 			// DFA succeeded - get exact match bounds from NFA
 			// Use estimated start position for O(m) search instead of O(n)
-			estimatedStart := 0
-			if endPos > 100 {
-				estimatedStart = endPos - 100
-			}
-			start, end, matched := e.pikevm.SearchAt(haystack, estimatedStart)
+			// (a match may be longer than any fixed window before endPos)
+			start, end, matched := e.pikevm.SearchAt(haystack, 0)
 			if !matched {
 				return nil
 			}
